@@ -61,6 +61,11 @@ def body(run):
         corr, param = d / 'out' / 'corr.tif', d / 'out' / 'corr_PARAM.tif'
         # pre-seed: nothing / junk bytes / a valid older product of another model
         pre = rng.choice(['none', 'corr-junk', 'param-junk', 'both-junk', 'old-product', 'old-product', 'corr-empty', 'param-empty'])
+        # every sixth history: ONLY the parameter file pre-exists and the first call asks for both outputs without overwrite - the refusal must
+        # come before the other output is created
+        only_param = hi % 6 == 2
+        if only_param:
+            pre = ['param-junk', 'param-empty'][(hi // 6) % 2]
         if pre in ('corr-junk', 'both-junk'):
             corr.write_bytes(b'OLD CORRECTED FILE')
         if pre in ('param-junk', 'both-junk'):
@@ -89,6 +94,8 @@ def body(run):
                 model = rng.choice(ik.MODELS) if not flip else f_model
                 kshape = rng.choice([(3, 3), (1, 3), (5, 3)]) if not flip else f_kshape
                 mp = (rng.random() < 0.3) if not flip else (f_mp if ci % 2 == 0 else not f_mp)
+                if only_param and ci == 0:
+                    ow, wp = False, True
                 before = snapshot(d)
                 ce, pe = corr.exists(), param.exists()
                 obs, err = call(rf, corr, param if wp else None, ow, as_str, model, kshape, mbm, mask_partial=mp)
